@@ -294,7 +294,9 @@ register("C02",
           # the designated source changes in a package two imports away between two runs of gen
           lambda rep, tier: __import__("vlib.c02tier", fromlist=["x"]).run_rewire(rep, tier),
           # one unnamed type written in several ways by its provider and its consumers: one call, one shared value
-          lambda rep, tier: __import__("vlib.c02tier", fromlist=["x"]).run_spellings(rep, tier)])
+          lambda rep, tier: __import__("vlib.c02tier", fromlist=["x"]).run_spellings(rep, tier),
+          # every field of a struct provider is fed by the designated source, prevented ones by none (even when one exists)
+          lambda rep, tier: __import__("vlib.c12tier", fromlist=["x"]).run_prevented_provided(rep, tier)])
 register("C11",
          "unit tier: random programs containing interface bindings (non-trivial); e2e tier: value/pointer receivers, "
          "bindings to providers / struct providers / values / arguments / fields, consumers of I and of C; "
@@ -617,7 +619,8 @@ register("C12",
                    _pairs_c02, {"C12"}, _has(("struct", "field")),
                    n_quick=180, n_thorough=1500),
           # fields of empty-interface type: value form and pointer form are mutually assignable
-          lambda rep, tier: __import__("vlib.c12tier", fromlist=["x"]).run_empty_iface_fields(rep, tier)])
+          lambda rep, tier: __import__("vlib.c12tier", fromlist=["x"]).run_empty_iface_fields(rep, tier),
+          lambda rep, tier: __import__("vlib.c12tier", fromlist=["x"]).run_prevented_provided(rep, tier)])
 
 
 def _c13_part(rep, tier):
